@@ -42,6 +42,15 @@ def numbering(coarse, fine, all_atom, shared_atoms):
                 seen.append(fragid[0])
         if len(seen) != len(set(seen)):
             out.append(("C12.numbering", "members of a coarse node are not contiguous: block sequence %r" % (seen[:40],)))
+        # ... and the block of coarse node k holds atoms of the fragment that node k names
+        for key in range(n):
+            owner = fine.nodes[key]["fragid"][0]
+            if owner in coarse.nodes:
+                want = coarse.nodes[owner].get("fragname")
+                if want is not None and fine.nodes[key].get("fragname") != want:
+                    out.append(("C12.numbering", "node %d lies in the block of coarse node %r (fragment %r) but reports fragment %r"
+                                % (key, owner, want, fine.nodes[key].get("fragname"))))
+                    break
         ckeys = [k for k in sorted(coarse.nodes) if k in set(seen)]
         if seen != ckeys and len(seen) == len(set(seen)):
             out.append(("C12.numbering", "blocks do not follow coarse key order: %r vs %r" % (seen[:30], ckeys[:30])))
